@@ -103,7 +103,7 @@ CHECKS = {
          "DESIGN.md §6 C16"),
  "C18": ("model_checking",
          "explicit-state IDDFS with every transition re-executed on the same node, on an independent node and under every map-iteration order (generated go build -overlay) + type-aware nondeterminism census",
-         "A stdlib-only type-aware census (go list -export + go/types) of the current tree's non-test, non-generated sources of both modules reports every map range, goroutine, select, channel operation, wall-clock, randomness and environment read; every map range is rewritten by a generated build overlay (leaving /repo untouched) to iterate in an order the harness chooses per goroutine; anything else outside the telemetry whitelist is a violation. Mode S over every message type of both modules plus blocks, oracle updates with three voters and an executor-change plan; every transition of every explored state is executed twice on the same node, once on a second independently constructed node loaded with the parent's raw store content, and once per permutation (all n! for n <= 4) at every instrumented map site it reaches (a re-run fails hard if the recorded site is not reached again). A violation is confirmed by replaying it in two fresh processes (the property is about independence from what the process did before). Response bytes, full error text, ordered events, gas, ordered validator updates and the digest of every store must be identical.",
+         "A stdlib-only type-aware census (go list -export + go/types) of the current tree's non-test, non-generated sources of both modules reports every map range, goroutine, select, channel operation, wall-clock, randomness and environment read; every map range is rewritten by a generated build overlay (leaving /repo untouched) to iterate in an order the harness chooses per goroutine; anything else outside the telemetry whitelist is a violation. Mode S over every message type of both modules plus blocks, oracle updates with three voters (one with a fresh timestamp and partial pair coverage, one that is rejected part-way through its write loop) and an executor-change plan; every transition of every explored state is executed twice on the same node, once on a second independently constructed node loaded with the parent's raw store content, and once per permutation (all n! for n <= 4) at every instrumented map site it reaches (a re-run fails hard if the recorded site is not reached again). A violation is confirmed by replaying it in two fresh processes (the property is about independence from what the process did before). Response bytes, full error text, ordered events, gas, ordered validator updates and the digest of every store must be identical.",
          "Trusted: Go toolchain (go list, go/types, -overlay); map iteration inside dependencies is exercised only by Go's own randomisation across the >= 3 executions of each transition. Bounded: depth 3/4 (L1) and 4/5 (L2).",
          "DESIGN.md §6 C18, §4"),
 }
